@@ -164,7 +164,7 @@ PROPS = {
         level="exploration",
         floor=50,
         builds=["harness"],
-        legs=lambda tier, seed, scratch: __import__("c10").legs(tier, seed, scratch),
+        legs=lambda tier, seed, scratch: __import__("c10").legs(tier, seed, scratch) + ([_san().memcheck_c10_leg(tier, seed, scratch)] if tier != "quick" else []),
         rule="Files come from pybbi/encode.py (independent encoder, cross-checked encode->decode = identity) over the cross "
         "product {little, big endian} x {zlib levels, raw} x {bigWig section types 1/2/3 mixed, bigBed} x chromosome-tree "
         "block sizes {1,2,3,256} (1-4 levels) x R-tree fan-out {2,3,5,256} (depth 1-8) x node placement {level order, "
@@ -172,7 +172,9 @@ PROPS = {
         "(v1 without summary) x 0-3 zoom levels. The harness subcommand readq executes CHROMS / INFO / SUMMARY / "
         "INTERVAL / VALUES / ZOOM / AUTOSQL / ITEMCOUNT on BigWigRead/BigBedRead plain, .cached() and GenericBBIRead; the "
         "answers are compared with the encoder's abstract content model (not with a re-decode) and across flavours. "
-        "Non-trivial = R-tree depth >= 2 or chromosome tree >= 2 levels or big-endian; tags give the layout cells seen.",
+        "Non-trivial = R-tree depth >= 2 or chromosome tree >= 2 levels or big-endian; tags give the layout cells seen. "
+        "Thorough adds the same readq workload on 240 files under valgrind memcheck (the libdeflate FFI is reached with "
+        "buffer sizes taken from header fields); any memcheck error block is a violation.",
         assumptions=["only well-formed files are in scope (uncompressBufSize >= every block, valSize 8)"],
         technique="runtime monitoring: independent encoder + content-model oracle over reader answers",
     ),
